@@ -18,8 +18,9 @@ COQ_CASE_TYPE = "c20_case"
 COQ_CHECK = "c20_check"
 GENERATORS = [gen_lif.main]
 THEOREMS = ["c20_zero", "c20_semigroup", "c20_ode", "c20_limit", "c20_spike_time", "c20_no_spike", "c20_reset",
-            "c20_record_step_partial", "c20_cuba_euler"]
-PROOF_FILES = ["Proofs/LifProofs.v"]
+            "c20_record_step_partial", "c20_cuba_euler", "c20_spikes_independent_of_record_dt",
+            "c20_voltages_independent_of_record_dt", "c20_laws_hold_for_if_neuron"]
+PROOF_FILES = ["Proofs/LifProofs.v", "Proofs/EventLoopProofs.v"]
 TRUSTED_LOOP = "Model/EventLoop.v: hand-written model of run_event_based_simulation, tied by exact event-by-event correspondence"
 TRUSTED = ["harness/gen_lif.py: fail-closed Python-AST -> Coq(R) translator of advance_by_delta_t, calc_next_spike_time, "
            "apply_reset and CubaLIFImplementation.forward (the theorems are about the translated terms)",
